@@ -549,11 +549,42 @@ impl Compactor {
         Ok(())
     }
 
+    /// Leave the copies of an unfinished shard split alone.
+    ///
+    /// While a split is in its dual-write or back-fill phase, readers recognise the rows
+    /// copied to the new shards by their chunk path and skip them. Merging such a copy -
+    /// with the old shard's chunks of the same hour or with other copies - into a compacted
+    /// path that names no shard would make every copied row visible twice. Groups that
+    /// fall below `min_count` without the copies are dropped.
+    async fn without_active_split_copies(
+        &self,
+        candidates: Vec<Vec<String>>,
+        min_count: usize,
+    ) -> Result<Vec<Vec<String>>> {
+        let copy_shards = self.metadata.active_split_new_shards().await?;
+        if copy_shards.is_empty() {
+            return Ok(candidates);
+        }
+        Ok(candidates
+            .into_iter()
+            .map(|group| {
+                group
+                    .into_iter()
+                    .filter(|path| !copy_shards.iter().any(|shard| path.contains(shard.as_str())))
+                    .collect::<Vec<_>>()
+            })
+            .filter(|group| group.len() >= min_count.max(1))
+            .collect())
+    }
+
     /// Compact L0 (size-tiered compaction)
     async fn compact_l0(&self) -> Result<()> {
         let candidates = self
             .metadata
             .get_l0_candidates(self.config.l0_merge_threshold)
+            .await?;
+        let candidates = self
+            .without_active_split_copies(candidates, self.config.l0_merge_threshold)
             .await?;
 
         for group in candidates {
@@ -687,6 +718,7 @@ impl Compactor {
             .metadata
             .get_level_candidates(level, target_size)
             .await?;
+        let candidates = self.without_active_split_copies(candidates, 2).await?;
 
         for group in candidates {
             if group.len() < 2 {
